@@ -157,7 +157,7 @@ func c17Spec() *propSpec {
 	s.Thorough = tierParams{Runs: 16000, BudgetS: 1200, PerRunS: 900, RaceRuns: 1000, RaceBudgetS: 600, ShrinkAttempts: 300, ShrinkS: 400}
 	s.Rule = "one case = a chain history as in C06 (reorganisations, invalid blocks, restarts; 30% with fan-out blocks whose 32-record insert/delete batches fire the callbacks concurrently) with client/wallet attached the way the client does it (LoadBalancesFromUtxo installs NotifyTxAdd/Del), list->map switch-over at 2-6 outputs, minimum value 0 / 1000 / 5 / 15 / 25 BTC, outputs to ~70 addresses of the five indexed types plus OP_TRUE, OP_RETURN and odd scripts, index switched off and rebuilt from the populated set mid-history. After every delivery, for every address ever paid: the (txid, vout, value, height, coinbase) multiset from wallet.GetAllUnspent equals the projection of the reference ledger's unspent set at or above the minimum, and per address type the number of addresses, outputs and the total from wallet.Browse equal the projection's."
 	s.Components = map[string][]string{
-		"real":      append([]string{"client/wallet (instrumented)", "client/common (instrumented; configuration globals)"}, chainComponents["real"]...),
+		"real":      append([]string{"client/wallet (instrumented; db.go, onoff.go and the save/restore of disk.go)", "client/common (instrumented; configuration globals)"}, chainComponents["real"]...),
 		"simulated": chainComponents["simulated"],
 		"restated":  append([]string{"client/init.go wiring: common.BlockChain, home dir, AllBalances options, then wallet.LoadBalancesFromUtxo()"}, chainComponents["restated"]...),
 	}
